@@ -109,7 +109,7 @@ def tier_q(ctx):
 
 
 class Pki(object):
-    """root + leaves.  style 'short': one-letter issuer name and tiny serial numbers (so that four SignerInfos fit the
+    """root + leaves.  style 'short': one-letter issuer name and tiny, prefix-related serial numbers (so that four SignerInfos fit the
     library's 512-byte work area); style 'normal': toolkit-like names of varying length and 80-bit serial numbers."""
 
     def __init__(self, rng, style):
@@ -134,7 +134,11 @@ class Pki(object):
 
     def leaf(self, cn, pub, usage):
         self.serial += 1
-        serial = self.serial if self.style == 'short' else (self.rng.getrandbits(79) | (1 << 79))
+        # 'short': tiny serial numbers that are byte-prefixes / byte-suffixes of one another, the longer ones issued first
+        # (a lookup by issuer and serial has to compare the whole serial, not the shorter of the two lengths)
+        related = [0x1234, 0x12, 0x123456, 0x34, 0x3456, 0x56, 0x1200, 0x0012 + 0x100]
+        serial = related[(self.serial - 2) % len(related)] + ((self.serial - 2) // len(related) << 24) if self.style == 'short' else \
+            (self.rng.getrandbits(79) | (1 << 79))
         subject = X.seq(X.set_(X.seq(X.oid(X.OID_AT['CN']), X.utf8(cn)))) if self.style == 'short' else X.name(cn)
         return X.make_cert(cn, pub, self.cn, self.root_priv, serial=serial, not_before=NB, not_after=NA,
                            exts=[X.ext_key_usage(usage)], subject_name=subject, issuer_name=self.name)
